@@ -57,6 +57,11 @@ Definition arch_roundtrip_now (level : nat) : vfile -> (Z -> Z) -> vfile -> vfil
 (* words of a register that exist on a machine of that level *)
 Definition visible (level : nat) : nat := match level with O => 2 | S O => 4 | _ => 8 end%nat.
 
+(* the MXCSR register (rounding mode, sticky exception flags, masks): saved first and restored last by the pair
+   iff the generated flag arch_ctx_mxcsr says so; otherwise whatever the hook body left *)
+Definition mxcsr_roundtrip (saves : bool) (csr clobber : Z) : Z := if saves then csr else clobber.
+Definition mxcsr_now : Z -> Z -> Z := mxcsr_roundtrip arch_ctx_mxcsr.
+
 (* bits 0-127 only *)
 Definition lift (x : xfile) : vfile := fun r i => match i with O => fst (x r) | S O => snd (x r) | _ => 0 end.
 Definition arch_roundtrip128 (level : nat) (x : xfile) (c0 : Z -> Z) (clobber : xfile) : xfile :=
